@@ -20,6 +20,7 @@ import (
 	"strconv"
 	"strings"
 	"sync"
+	"sync/atomic"
 	"syscall"
 	"time"
 )
@@ -102,7 +103,13 @@ func newReporter(idx int, journal *os.File) *Reporter {
 }
 
 // Eval counts one evaluation; key is its canonical descriptor (for distinct counting).
+// progress counts reporter calls of the running process: the per-case watchdog fires only when a
+// case has made no reporter call for the whole timeout (a case that is merely slow on a loaded
+// machine keeps evaluating and reporting; a hung one does not)
+var progress atomic.Int64
+
 func (r *Reporter) Eval(key string, nontrivial bool) {
+	progress.Add(1)
 	r.mu.Lock()
 	defer r.mu.Unlock()
 	r.line.Evals++
@@ -112,6 +119,7 @@ func (r *Reporter) Eval(key string, nontrivial bool) {
 }
 
 func (r *Reporter) Obs(name string, n int64) {
+	progress.Add(1)
 	r.mu.Lock()
 	r.line.Obs[name] += n
 	r.mu.Unlock()
@@ -169,6 +177,7 @@ func (r *Reporter) Inconclusive(reason string) {
 // Pre journals the evaluation about to run (key = stable class key used if the process dies in
 // it, desc = enough to reproduce). Written with a plain write(2) before the call is made.
 func (r *Reporter) Pre(key, desc string) {
+	progress.Add(1)
 	if r.journal != nil {
 		if len(desc) > 4096 {
 			desc = desc[:4096]
@@ -413,6 +422,7 @@ func runWorker(chk *Check, env *Env, outPath, journalPath string, resumeAfter, o
 	cur.idx = -1
 	go func() {
 		lastTick := time.Now()
+		lastProgress, lastProgressAt := progress.Load(), time.Now()
 		for {
 			time.Sleep(500 * time.Millisecond)
 			// a tick that comes much later than asked for means the whole process did not run (VM
@@ -421,11 +431,18 @@ func runWorker(chk *Check, env *Env, outPath, journalPath string, resumeAfter, o
 				cur.Lock()
 				cur.start = cur.start.Add(gap)
 				cur.Unlock()
+				lastProgressAt = lastProgressAt.Add(gap)
 			}
 			lastTick = time.Now()
+			if p := progress.Load(); p != lastProgress {
+				lastProgress, lastProgressAt = p, time.Now()
+			}
 			cur.Lock()
 			idx, st := cur.idx, cur.start
 			cur.Unlock()
+			if st.Before(lastProgressAt) {
+				st = lastProgressAt // the case reported something since it started: count from there
+			}
 			if idx >= 0 && time.Since(st) > timeout {
 				_, _ = jf.WriteString("H " + strconv.Itoa(idx) + "\n")
 				buf := make([]byte, 1<<20)
